@@ -111,17 +111,16 @@ Qed.
 Lemma not_amp_xt_pair : ~ In 38 xt_pair.
 Proof. unfold xt_pair. cbn [In]. lia. Qed.
 
-Theorem magnet_roundtrip h params :
-  List.length h = 20%nat -> Forall (fun b => b < 256) h ->
+(* the link for any spelling hx of a hash that hash.Parse reads and that contains no '&' *)
+Lemma magnet_link_reads hx h params :
+  hash_parse hx = Some h -> ~ In 38 hx ->
   params = [] \/ (exists r, params = 38 :: r) ->
-  read_magnet (magnet_of h params) = MgOk h.
+  read_magnet (ascii_bytes "magnet:?xt=urn:btih:"%string ++ hx ++ params) = MgOk h.
 Proof.
-  intros Hl Hb Hp.
-  assert (HP : hash_parse (hex_encode h) = Some h).
-  { unfold hash_parse. rewrite (hex_decode_encode h Hb). unfold len. rewrite Hl. reflexivity. }
-  assert (Hn : ~ In 38 (xt_pair ++ hex_encode h)).
-  { intros H. apply in_app_or in H. destruct H as [H | H]; [exact (not_amp_xt_pair H) | exact (hex_encode_no_amp h Hb H)]. }
-  unfold magnet_of. rewrite prefix_eq. set (T := hex_encode h ++ params).
+  intros HP Hx Hp.
+  assert (Hn : ~ In 38 (xt_pair ++ hx)).
+  { intros H. apply in_app_or in H. destruct H as [H | H]; [exact (not_amp_xt_pair H) | exact (Hx H)]. }
+  rewrite prefix_eq. set (T := hx ++ params).
   change (([109; 97; 103; 110; 101; 116; 58; 63] ++ xt_pair) ++ T)
     with (109 :: 97 :: 103 :: 110 :: 101 :: 116 :: 58 :: 63 :: xt_pair ++ T).
   unfold read_magnet.
@@ -139,7 +138,136 @@ Proof.
   - rewrite split_on_app by exact Hn. cbn [rev app]. rewrite (first_of_pairs _ h _ HP). reflexivity.
 Qed.
 
+Theorem magnet_roundtrip h params :
+  List.length h = 20%nat -> Forall (fun b => b < 256) h ->
+  params = [] \/ (exists r, params = 38 :: r) ->
+  read_magnet (magnet_of h params) = MgOk h.
+Proof.
+  intros Hl Hb Hp. unfold magnet_of. apply magnet_link_reads; [|exact (hex_encode_no_amp h Hb)|exact Hp].
+  unfold hash_parse. rewrite (hex_decode_encode h Hb). unfold len. rewrite Hl. reflexivity.
+Qed.
+
+(* ---------- base32 ---------- *)
+Lemma b32val_char v : v < 32 -> b32val (b32char v) = Some v.
+Proof.
+  intros Hv. unfold b32val, b32char. destruct (v <? 26) eqn:E.
+  - assert (H1 : (65 <=? 65 + v) && (65 + v <=? 90) = true) by lia. rewrite H1. f_equal; lia.
+  - assert (H1 : (65 <=? 24 + v) && (24 + v <=? 90) = false) by lia. rewrite H1.
+    assert (H2 : (50 <=? 24 + v) && (24 + v <=? 55) = true) by lia. rewrite H2. f_equal; lia.
+Qed.
+
+Lemma b32char_not_amp v : v < 32 -> b32char v <> 38.
+Proof. unfold b32char. intros. destruct (v <? 26) eqn:E; lia. Qed.
+
+Lemma group_decodes v :
+  v < 1099511627776 ->
+  let v1 := v / 32 in let v2 := v1 / 32 in let v3 := v2 / 32 in let v4 := v3 / 32 in
+  let v5 := v4 / 32 in let v6 := v5 / 32 in let v7 := v6 / 32 in
+  (((((((v7 mod 32) * 32 + v6 mod 32) * 32 + v5 mod 32) * 32 + v4 mod 32) * 32 + v3 mod 32) * 32 + v2 mod 32) * 32 + v1 mod 32) * 32 + v mod 32 = v.
+Proof.
+  intros Hv. cbv zeta.
+  remember (v / 32) as v1 eqn:E1. assert (B1 : v1 < 34359738368 /\ v1 * 32 + v mod 32 = v) by lia. clear E1 Hv.
+  remember (v1 / 32) as v2 eqn:E2. assert (B2 : v2 < 1073741824 /\ v2 * 32 + v1 mod 32 = v1) by lia. clear E2.
+  remember (v2 / 32) as v3 eqn:E3. assert (B3 : v3 < 33554432 /\ v3 * 32 + v2 mod 32 = v2) by lia. clear E3.
+  remember (v3 / 32) as v4 eqn:E4. assert (B4 : v4 < 1048576 /\ v4 * 32 + v3 mod 32 = v3) by lia. clear E4.
+  remember (v4 / 32) as v5 eqn:E5. assert (B5 : v5 < 32768 /\ v5 * 32 + v4 mod 32 = v4) by lia. clear E5.
+  remember (v5 / 32) as v6 eqn:E6. assert (B6 : v6 < 1024 /\ v6 * 32 + v5 mod 32 = v5) by lia. clear E6.
+  remember (v6 / 32) as v7 eqn:E7. assert (B7 : v7 < 32 /\ v7 * 32 + v6 mod 32 = v6) by lia. clear E7.
+  rewrite (N.mod_small v7 32) by lia.
+  destruct B7 as [_ ->]. destruct B6 as [_ ->]. destruct B5 as [_ ->]. destruct B4 as [_ ->].
+  destruct B3 as [_ ->]. destruct B2 as [_ ->]. destruct B1 as [_ ->]. reflexivity.
+Qed.
+
+Lemma group_roundtrip b0 b1 b2 b3 b4 :
+  b0 < 256 -> b1 < 256 -> b2 < 256 -> b3 < 256 -> b4 < 256 ->
+  exists v, b32_group (enc_group b0 b1 b2 b3 b4) 0 = Some v /\ group_bytes v = [b0; b1; b2; b3; b4].
+Proof.
+  intros H0 H1 H2 H3 H4. unfold enc_group.
+  set (v := (((b0 * 256 + b1) * 256 + b2) * 256 + b3) * 256 + b4).
+  assert (Hv : v < 1099511627776) by (unfold v; lia).
+  exists v. split.
+  - cbv zeta. cbn [b32_group]. rewrite !b32val_char by (apply N.mod_lt; lia). f_equal.
+    change (0 * 32 + v / 32 / 32 / 32 / 32 / 32 / 32 / 32 mod 32) with (v / 32 / 32 / 32 / 32 / 32 / 32 / 32 mod 32).
+    exact (group_decodes v Hv).
+  - unfold group_bytes. unfold v. repeat f_equal; lia.
+Qed.
+
+Lemma split5 (bs : bytes) k : List.length bs = (5 * S k)%nat ->
+  exists b0 b1 b2 b3 b4 r, bs = b0 :: b1 :: b2 :: b3 :: b4 :: r /\ List.length r = (5 * k)%nat.
+Proof.
+  destruct bs as [|b0 [|b1 [|b2 [|b3 [|b4 r]]]]]; cbn [List.length]; intros H; try lia.
+  exists b0, b1, b2, b3, b4, r. split; [reflexivity | lia].
+Qed.
+
+Lemma b32_decode_encode : forall k bs fuel,
+  List.length bs = (5 * k)%nat -> Forall (fun b => b < 256) bs -> (k < fuel)%nat ->
+  b32_decode fuel (b32_encode bs) = Some bs.
+Proof.
+  induction k as [|k IH]; intros bs fuel Hl Hb Hf.
+  - destruct bs; [|cbn [List.length] in Hl; lia]. destruct fuel; [lia | reflexivity].
+  - destruct (split5 bs k Hl) as (b0 & b1 & b2 & b3 & b4 & r & -> & Hr).
+    inversion Hb as [|? ? H0 Hb1]; subst. inversion Hb1 as [|? ? H1 Hb2]; subst. inversion Hb2 as [|? ? H2 Hb3]; subst.
+    inversion Hb3 as [|? ? H3 Hb4]; subst. inversion Hb4 as [|? ? H4 Hb5]; subst.
+    destruct fuel as [|f]; [lia|].
+    change (b32_encode (b0 :: b1 :: b2 :: b3 :: b4 :: r)) with (enc_group b0 b1 b2 b3 b4 ++ b32_encode r).
+    destruct (group_roundtrip b0 b1 b2 b3 b4 H0 H1 H2 H3 H4) as (v & Hg & Hv).
+    cbn [b32_decode].
+    assert (Hs : exists c s, enc_group b0 b1 b2 b3 b4 ++ b32_encode r = c :: s) by (unfold enc_group; cbv zeta; cbn [app]; eauto).
+    destruct Hs as (c & s & Hs). rewrite Hs. rewrite <- Hs.
+    change 8 with (len (enc_group b0 b1 b2 b3 b4)). rewrite take_exact. rewrite Hg.
+    rewrite (IH r f Hr Hb5) by lia. rewrite Hv. reflexivity.
+Qed.
+
+Lemma b32_encode_props : forall k bs,
+  List.length bs = (5 * k)%nat -> List.length (b32_encode bs) = (8 * k)%nat /\ ~ In 38 (b32_encode bs).
+Proof.
+  induction k as [|k IH]; intros bs Hl.
+  - destruct bs; [|cbn [List.length] in Hl; lia]. split; [reflexivity | intros []].
+  - destruct (split5 bs k Hl) as (b0 & b1 & b2 & b3 & b4 & r & -> & Hr).
+    change (b32_encode (b0 :: b1 :: b2 :: b3 :: b4 :: r)) with (enc_group b0 b1 b2 b3 b4 ++ b32_encode r).
+    destruct (IH r Hr) as (Il & Ia). split.
+    + rewrite app_length, Il. change (List.length (enc_group b0 b1 b2 b3 b4)) with 8%nat. lia.
+    + intros H. apply in_app_or in H. destruct H as [H | H]; [|exact (Ia H)].
+      unfold enc_group in H. cbv zeta in H. cbn [In] in H.
+      repeat (destruct H as [H | H]; [revert H; apply b32char_not_amp; apply N.mod_lt; lia|]). exact H.
+Qed.
+
+Lemma hex_decode_length : forall x s, hex_decode s = Some x -> List.length s = (2 * List.length x)%nat.
+Proof.
+  induction x as [|y x IH]; intros s H.
+  - destruct s as [|a [|b r]]; [reflexivity | discriminate |].
+    cbn [hex_decode] in H. destruct (hexval a); [|discriminate]. destruct (hexval b); [|discriminate].
+    destruct (hex_decode r); discriminate.
+  - destruct s as [|a [|b r]]; [discriminate | discriminate |].
+    cbn [hex_decode] in H. destruct (hexval a); [|discriminate]. destruct (hexval b); [|discriminate].
+    destruct (hex_decode r) as [t|] eqn:E; [|discriminate]. injection H as _ ->.
+    cbn [List.length]. rewrite (IH r E). lia.
+Qed.
+
+Theorem magnet_roundtrip_b32 h params :
+  List.length h = 20%nat -> Forall (fun b => b < 256) h ->
+  params = [] \/ (exists r, params = 38 :: r) ->
+  read_magnet (magnet_of_b32 h params) = MgOk h.
+Proof.
+  intros Hl Hb Hp. unfold magnet_of_b32.
+  assert (Hl4 : List.length h = (5 * 4)%nat) by (rewrite Hl; reflexivity).
+  destruct (b32_encode_props 4 h Hl4) as (Hlen & Hamp).
+  apply magnet_link_reads; [|exact Hamp|exact Hp].
+  assert (HB : b32_decode (S (List.length (b32_encode h))) (b32_encode h) = Some h).
+  { apply (b32_decode_encode 4); [exact Hl4 | exact Hb | lia]. }
+  assert (H20 : (len h =? 20) = true) by (unfold len; rewrite Hl; reflexivity).
+  unfold hash_parse. rewrite HB, H20.
+  destruct (hex_decode (b32_encode h)) as [x|] eqn:E; [|reflexivity].
+  apply hex_decode_length in E. replace (len x =? 20) with false; [reflexivity|].
+  unfold len. symmetry. apply N.eqb_neq. lia.
+Qed.
+
 Example magnet_roundtrip_example :
   read_magnet (magnet_of [1;2;3;4;5;6;7;8;9;10;11;12;13;14;15;16;17;18;19;255]
                  (ascii_bytes "&dn=a&tr=http://t.example/announce"%string)) = MgOk [1;2;3;4;5;6;7;8;9;10;11;12;13;14;15;16;17;18;19;255].
+Proof. vm_compute. reflexivity. Qed.
+
+Example magnet_roundtrip_b32_example :
+  read_magnet (magnet_of_b32 [1;2;3;4;5;6;7;8;9;10;11;12;13;14;15;16;17;18;19;255]
+                 (ascii_bytes "&dn=a"%string)) = MgOk [1;2;3;4;5;6;7;8;9;10;11;12;13;14;15;16;17;18;19;255].
 Proof. vm_compute. reflexivity. Qed.
